@@ -401,15 +401,15 @@ def outer_chain_shapes(draw):
     """Chains of three or four tables with a RIGHT / FULL join *behind* the first join and a WHERE conjunct (null test or
     comparison) on one of the earlier tables: whether a filter may go into a table's fetch depends on every later join
     that can NULL-fill that table, not only on its neighbour."""
-    n = draw(st.integers(3, 4))
+    n = draw(st.integers(2, 4))
     tabs = [draw(st.sampled_from(ALL_TABLES)) for _ in range(n)]
     als = [f'x{i + 1}' for i in range(n)]
     tags = {'shape:outer-chain'}
     frm = f'{tabs[0][0]}.{tabs[0][1]} AS {als[0]}'
-    late = draw(st.integers(2, n - 1))                 # position of the join that is certainly RIGHT / FULL
+    late = draw(st.integers(min(2, n - 1), n - 1))     # position of the join that is certainly an outer join
     for i in range(1, n):
         if i == late:
-            jk = draw(st.sampled_from(['RIGHT JOIN', 'FULL JOIN', 'FULL OUTER JOIN']))
+            jk = draw(st.sampled_from(['RIGHT JOIN', 'FULL JOIN', 'FULL OUTER JOIN', 'LEFT JOIN', 'LEFT OUTER JOIN']))
         else:
             jk = draw(st.sampled_from(['JOIN', 'LEFT JOIN', 'INNER JOIN', 'RIGHT JOIN', 'FULL JOIN']))
         tags.add('join:' + jk)
@@ -421,10 +421,14 @@ def outer_chain_shapes(draw):
         tcols.append(f'{als[i]}.{c} AS c{i}')
     conj = []
     for _ in range(draw(st.integers(1, 2))):
-        wi = draw(st.integers(0, late - 1))
+        wi = draw(st.integers(0, n - 1))
         wc = draw(st.sampled_from([c for c, t in model.SCHEMA[tabs[wi][1]] if t == 'int']))
-        kind = draw(st.sampled_from(['is-null', 'is-null', 'is-not-null', 'cmp']))
-        if kind == 'cmp':
+        kind = draw(st.sampled_from(['is-null', 'is-null', 'is-not-null', 'cmp', 'truth', 'truth']))
+        if kind == 'truth':
+            # NULL passes IS NOT TRUE / IS NOT FALSE: as dangerous below an outer join as IS NULL
+            conj.append(f'({als[wi]}.{wc} IS {draw(st.sampled_from(["NOT ", "NOT ", ""]))}{draw(st.sampled_from(["TRUE", "FALSE"]))})')
+            tags.add('istruth')
+        elif kind == 'cmp':
             conj.append(f'({als[wi]}.{wc} {draw(st.sampled_from(["=", ">", "<=", "!="]))} {draw(st.integers(0, 2))})')
         else:
             conj.append(f'({als[wi]}.{wc} IS {"NOT " if kind == "is-not-null" else ""}NULL)')
@@ -433,6 +437,39 @@ def outer_chain_shapes(draw):
     sql = f'SELECT {", ".join(tcols)} FROM {frm} WHERE ' + ' AND '.join(conj)
     meta = {'order_cols': [], 'total_order': False, 'limit': False, 'tags': sorted(tags),
             'places': sorted({q for q, _ in tabs}), 'tables': sorted({f'{q}.{t}' for q, t in tabs}), 'types': ['int'] * n}
+    return {'sql': sql, 'meta': meta}
+
+
+@st.composite
+def nested_cte_shapes(draw):
+    """The same CTE name defined in two nested selects of one statement (each WITH belongs to its own select): the
+    two definitions have different bodies over different integrations."""
+    a = draw(st.sampled_from([('int1', 't1'), ('int1', 't2')]))
+    b = draw(st.sampled_from([('int2', 't3'), ('int2', 't4'), ('int2', 't1')]))
+    name = draw(st.sampled_from(['w', 'w', 'cte0', 't1']))
+    ca = draw(st.sampled_from([c for c, t in model.SCHEMA[a[1]] if t == 'int']))
+    cb = draw(st.sampled_from([c for c, t in model.SCHEMA[b[1]] if t == 'int']))
+    wa = f'WITH {name} AS (SELECT y.{ca} AS c0 FROM {a[0]}.{a[1]} AS y) SELECT * FROM {name}'
+    wb = f'WITH {name} AS (SELECT z.{cb} AS c0 FROM {b[0]}.{b[1]} AS z) SELECT * FROM {name}'
+    kind = draw(st.sampled_from(['join', 'join', 'in-in', 'from-in']))
+    tags = {'shape:nested-cte', 'cte', 'cte:same-name-twice', 'sub:from' if kind != 'in-in' else 'sub:in'}
+    if kind == 'join':
+        jk = draw(st.sampled_from(['JOIN', 'LEFT JOIN']))
+        sql = f'SELECT q1.c0 AS c0, q2.c0 AS c1 FROM ({wa}) AS q1 {jk} ({wb}) AS q2 ON (q1.c0 = q2.c0)'
+        types = ['int', 'int']
+        tags.add('join:' + jk)
+    elif kind == 'in-in':
+        t = draw(st.sampled_from([('int1', 't1'), ('int2', 't3')]))
+        sql = (f'SELECT x1.a AS c0 FROM {t[0]}.{t[1]} AS x1 WHERE (x1.a IN (WITH {name} AS (SELECT y.{ca} AS c0 FROM {a[0]}.{a[1]} AS y) '
+               f'SELECT c0 FROM {name})) AND (x1.a NOT IN (WITH {name} AS (SELECT z.{cb} AS c0 FROM {b[0]}.{b[1]} AS z '
+               f'WHERE (z.{cb} IS NOT NULL)) SELECT c0 FROM {name}))')
+        types = ['int']
+    else:
+        sql = (f'SELECT q1.c0 AS c0 FROM ({wa}) AS q1 WHERE (q1.c0 IN (WITH {name} AS (SELECT z.{cb} AS c0 FROM {b[0]}.{b[1]} AS z) '
+               f'SELECT c0 FROM {name}))')
+        types = ['int']
+    meta = {'order_cols': [], 'total_order': False, 'limit': False, 'tags': sorted(tags), 'places': ['int1', 'int2'],
+            'tables': sorted({f'{a[0]}.{a[1]}', f'{b[0]}.{b[1]}'}), 'types': types}
     return {'sql': sql, 'meta': meta}
 
 
@@ -468,6 +505,11 @@ def cases(draw):
     if draw(st.integers(0, 15)) == 0:
         c = draw(star_over_subselect())
         c['data'] = draw(model.table_data(DATA_TABLES))
+        c['catalog'] = draw(st.sampled_from(sorted(CATALOGS)))
+        return c
+    if draw(st.integers(0, 23)) == 0:
+        c = draw(nested_cte_shapes())
+        c['data'] = draw(model.table_data(DATA_TABLES, max_rows=4, min_rows=1))
         c['catalog'] = draw(st.sampled_from(sorted(CATALOGS)))
         return c
     if draw(st.integers(0, 11)) == 0:
